@@ -246,9 +246,10 @@ E_ROOTS = tuple(m for m in PRED if m != "score")
 
 
 def check_e(ck, repo):
-    from .rowwise import BatchStatistics
+    from .rowwise import BatchStatistics, data_parameters
     from . import sem
 
+    eff = sem.effects(repo)
     n = 0
     seen = set()
     for ci in estimator_classes(repo):
@@ -259,15 +260,18 @@ def check_e(ck, repo):
             _, fi = repo.find_method(ci, m)
             if fi is not None:
                 roots.append(fi)
-        for fi in reachable_functions(repo, roots):
-            if fi.qualname in seen:
+        funcs = reachable_functions(repo, roots)
+        dparams = data_parameters(repo, roots, funcs, resolve_call, eff._bind)
+        for fi in funcs:
+            data = set(dparams.get(fi.qualname, ()))
+            key = (fi.qualname, tuple(sorted(data)))
+            if key in seen:
                 continue
-            seen.add(fi.qualname)
+            seen.add(key)
             if fi.name in E_EXEMPT_FUNCS or fi.module.name in E_EXEMPT_MODULES or fi.name in ("__init__", "set_params", "get_params", "fit", "_fit_l1", "_fit_parallel", "_fit_reglin", "fit_improve"):
                 continue
             if fi.cls is not None and fi.cls.name in E_EXEMPT_CLASSES:
                 continue
-            data = {p for p in fi.named_params if p not in ("self", "cls")}
             if not data:
                 continue
             n += 1
